@@ -280,6 +280,34 @@ fn packagings(v: &IxView, idx: usize, salt: u64, cov: &mut Coverage, out: &mut V
             }
         }
     }
+    // 5. the reverse: arrays of the path that exist but hold no initialized tick are taken away on the fork
+    //    (the swap then sees them as merely named addresses); the result must be the same
+    {
+        let empty: Vec<Pubkey> = arrays
+            .iter()
+            .filter(|k| v.pre.data(k).and_then(|d| decode::tick_array(d).ok()).map(|t| t.ticks.iter().all(|x| !x.initialized)).unwrap_or(false))
+            .cloned()
+            .collect();
+        if !empty.is_empty() {
+            let mut f0 = v.pre.clone();
+            let mut removed: Vec<Pubkey> = Vec::new();
+            for k in &empty {
+                if removed.contains(k) {
+                    continue;
+                }
+                if removed.is_empty() || rng.chance(2, 3) {
+                    f0.accts.remove(k);
+                    removed.push(*k);
+                }
+            }
+            let (ok, code, f) = exec(&f0, v.ix.clone());
+            cov.probe("packaging_existing_empty_vs_named");
+            if !ok || signature(&f, &wk, &pool, &trader, &removed) != signature(v.post, &wk, &pool, &trader, &removed) {
+                out.push(viol("named_only_array_changes_outcome", idx, format!("{} gives a different result when its empty tick arrays {:?} do not exist on-chain and are merely named: ok={} code={:?}", name, removed, ok, code)));
+                return;
+            }
+        }
+    }
     // 6. an array of another pool must be rejected
     if let Some(src) = arrays.iter().find(|k| v.pre.exists(k)) {
         let mut f0 = v.pre.clone();
